@@ -197,8 +197,17 @@ def check_case(acc, case):
             default = 2 * p * np.sqrt(np.log(n))
             thr = thr_scale * default
             unit = thr if thr > 0 else 1.0
+            shape = case.get("shape")
+            if shape == "neg":
+                # every admissible score is NEGATIVE (level - 5 units): maxima and maximisers are still defined
+                T[:, :, :, 0] = -5.0 * unit
             for (s, k, e, lv) in case["cells"]:
-                if p == 1:
+                if shape == "neg":
+                    T[s, k, e, 0] = (lv - 5.0) * unit
+                elif shape == "tight":
+                    # level 1 = the threshold exactly, levels 2, 3 exceed it by 2^-20, 2^-19 of its size
+                    T[s, k, e, 0] = (1.0 + (lv - 1.0) * 2.0 ** -20) * unit
+                elif p == 1:
                     T[s, k, e, 0] = lv * unit
                 else:  # split unevenly: level L -> (L-1, 1) units, level 1 -> (0, 1)
                     T[s, k, e, 0] = max(lv - 1.0, 0.0) * unit
@@ -318,6 +327,8 @@ def rowmax_cases(tier):
             for vals in itertools.product((0, 1, 2), repeat=len(sp)):
                 cells = [(s, k, e, float(v)) for k, v in zip(sp, vals) if v]
                 yield {"fam": "rowmax", "n": n, "p": 1, "msl": msl, "M": M, "growth": g, "cells": cells, "thr_scale": 0.0}
+                if len(sp) <= 4:
+                    yield {"fam": "rowmax", "n": n, "p": 1, "msl": msl, "M": M, "growth": g, "cells": cells, "thr_scale": 0.0, "shape": "neg"}
             if len(sp) >= 2 and len(sp) <= 4:
                 for vals in itertools.product((0, 1, 2), repeat=len(sp)):
                     cells = [(s, k, e, float(v)) for k, v in zip(sp, vals) if v]
@@ -366,6 +377,9 @@ def greedy_dev_cases(tier):
                         for lv in LEVELS[1:]:
                             yield {"fam": "greedy-dev", "n": n, "p": 1, "msl": msl, "M": M, "growth": g,
                                    "cells": [c + (lv,)], "mono": True}
+                            for shape in ("tight", "neg"):
+                                yield {"fam": "greedy-dev", "n": n, "p": 1, "msl": msl, "M": M, "growth": g,
+                                       "cells": [c + (lv,)], "mono": False, "shape": shape}
                     # two deviations: only pairs of intervals that interact (overlap), levels {2,3}x{2,3}
                     for a, b in itertools.combinations(one, 2):
                         if (a[0], a[2]) == (b[0], b[2]):
@@ -375,6 +389,9 @@ def greedy_dev_cases(tier):
                         for la, lb in ((2.0, 2.0), (3.0, 2.0), (2.0, 3.0)):
                             yield {"fam": "greedy-dev", "n": n, "p": 2 if (a[1] + b[1]) % 5 == 0 else 1, "msl": msl, "M": M,
                                    "growth": g, "cells": [a + (la,), b + (lb,)], "mono": la != lb}
+                            if la != lb and (a[1] + b[1]) % 3 == 0:
+                                yield {"fam": "greedy-dev", "n": n, "p": 1, "msl": msl, "M": M,
+                                       "growth": g, "cells": [a + (la,), b + (lb,)], "mono": False, "shape": "tight"}
 
 
 def data_cases(tier, seed):
@@ -436,6 +453,7 @@ def bounds(tier, seed):
         "grid": "n<=30 (quick) / 48 (thorough), msl<=4, M in {2msl..2msl+6, n//2, n-1, n, n+2}, growth in (1.05,1.1,1.25,1.33,1.5,1.75,2)",
         "small_configs(n,msl,M,growth)": [list(c) for c in small_configs(tier)],
         "levels": "multiples (0,1,2,3) of the read-back threshold; 1 = exact tie with the threshold",
+        "shapes": "plain; 'tight' = levels 2, 3 exceed the threshold by only 2^-20, 2^-19 of its size; 'neg' = every admissible score negative (level - 5 units)",
         "greedy-dev": "n in (8,9,10,12) quick / (7..14,16) thorough, msl<=2, <=2 non-zero intervals (pairs restricted to overlapping intervals), splits {first, middle, last}",
         "long": "piecewise-constant textured series n in (12,16,24) quick / up to 40, <= 2 changes (all placements for n<=16), msl in (1,2,4,5), CUSUM and L2Cost",
         "data": "all series over (0,4) n<=9/11, (0,1,3) and its seed-affine image n<=7/8; 2-column (0,3) n<=5; scores CUSUM, L2Cost, ChangeScore(GaussianVarCost); thresholds 0, 0.5*default, tuned(level 0.3)",
